@@ -7,11 +7,12 @@ import flight, vlib
 
 def run(ctx):
     ids = flight.parrots(ctx)
-    rep = [("Chrome-133", []), ("Firefox-120", []), ("Chrome-100_PSK", ["psk"]), ("Chrome-58", ["v12"]), ("iOS-14", []), ("Edge-106", [])]
+    # Chrome-83 carries a padding extension (sized for the captured ServerName): the re-apply-under-other-names half needs one
+    rep = [("Chrome-133", []), ("Firefox-120", []), ("Chrome-100_PSK", ["psk"]), ("Chrome-83", []), ("Chrome-58", ["v12"]), ("iOS-14", []), ("Edge-106", [])]
     docs = flight.repo_json_docs()
     if ctx.quick:
         rnd = random.Random(ctx.seed)
-        sel = rep[:4] + [(rnd.choice([i for i in ids if i not in {p for p, f in rep[:4]}]), [])]
+        sel = rep[:5] + [(rnd.choice([i for i in ids if i not in {p for p, f in rep[:5]}]), [])]
         maps = ["Chrome-133[]", "Firefox-120[]"]
         docs = docs[:1] + [rnd.choice(docs[1:])] if len(docs) > 2 else docs
     else:
